@@ -1,0 +1,45 @@
+//go:build !(darwin && cgo) && !(linux && mutagensspl && mutagenfanotify) && !windows && verif
+
+package watching
+
+import (
+	"errors"
+	"sync/atomic"
+)
+
+// This file is only compiled with the "verif" build tag, and only on platforms
+// where no native recursive watcher is built in (where it takes the place of
+// watch_recursive_unsupported.go). It lets the external verification harness
+// plug in a recursive watcher of its own, so that the code paths that consume a
+// RecursiveWatcher (the local endpoint's recursive watching loop) can be
+// exercised. Without an installed factory the behaviour is that of an
+// unsupported platform.
+
+// RecursiveWatchingSupported indicates whether or not recursive watching is
+// available. It is true exactly while a factory is installed.
+var RecursiveWatchingSupported = false
+
+// verifRecursiveWatcherFactory holds the installed factory (nil if none).
+var verifRecursiveWatcherFactory atomic.Pointer[func(target string) (RecursiveWatcher, error)]
+
+// VerifSetRecursiveWatcherFactory installs f as the constructor behind
+// NewRecursiveWatcher (nil removes it). It must be called before any code that
+// consults RecursiveWatchingSupported and not concurrently with such code.
+func VerifSetRecursiveWatcherFactory(f func(target string) (RecursiveWatcher, error)) {
+	if f == nil {
+		verifRecursiveWatcherFactory.Store(nil)
+		RecursiveWatchingSupported = false
+	} else {
+		verifRecursiveWatcherFactory.Store(&f)
+		RecursiveWatchingSupported = true
+	}
+}
+
+// NewRecursiveWatcher creates a new recursive watcher using the installed
+// factory.
+func NewRecursiveWatcher(target string) (RecursiveWatcher, error) {
+	if f := verifRecursiveWatcherFactory.Load(); f != nil {
+		return (*f)(target)
+	}
+	return nil, errors.New("recursive watching not supported on this platform")
+}
